@@ -8,14 +8,16 @@ int ofv_failed = 0;
 long long ofv_get(const char *name)
 {
 	const char *p = getenv("OFV_REPLAY");
-	char key[256];
+	char key[256], num[64];
 	long long val;
 	FILE *f;
 	if (p == NULL || (f = fopen(p, "r")) == NULL) {
 		printf("REPLAY-NO-INPUT-FILE\n");
 		exit(4);
 	}
-	while (fscanf(f, "%255s %lld", key, &val) == 2) {
+	while (fscanf(f, "%255s %63s", key, num) == 2) {
+		/* full 64-bit range: unsigned values above LLONG_MAX keep their bit pattern */
+		val = (num[0] == '-') ? strtoll(num, NULL, 10) : (long long)strtoull(num, NULL, 10);
 		if (strcmp(key, name) == 0) {
 			fclose(f);
 			return val;
